@@ -135,6 +135,11 @@ class FakeTransport(asyncio.Transport):
         self.client_closed = True
         self.conn_lost += 1
         self.net.ev("client_close", self.cid)
+        if getattr(self, "reset_on_close", False) and self.paused:
+            # a stalled link whose far end answers the client's close with a reset (unsent data is still buffered): the connection ends
+            # with an error, which the tasks waiting in drain() get to see
+            self.loop.call_soon(self._call_connection_lost, ConnectionResetError(104, "Connection reset by peer"))
+            return
         self.loop.call_soon(self._call_connection_lost, None)
 
     def abort(self):
